@@ -40,6 +40,7 @@ static struct scfg
     float delay_ms;
     int trigger;
     long camfail, stofail;
+    long shapefail; // the camera's get_shape fails when frame `shapefail` is next (first acquisition only), -1 = never
     int slow, pace;
     int camstop; // the camera's stop takes this many extra scheduling steps (a real camera's stop may block for a while)
     int zero_at; // camera returns "no data" (nbytes 0) once at this frame index (>=0)
@@ -235,7 +236,13 @@ c_meta(const struct Camera* c, struct CameraPropertyMetadata* m)
 static enum DeviceStatusCode
 c_shape(const struct Camera* c, struct ImageShape* s)
 {
-    *s = containerof(c, struct MCam, cam)->shape;
+    struct MCam* m = containerof(c, struct MCam, cam);
+    *s = m->shape;
+    if (m->running && epoch == 1 && SC[m->s].shapefail >= 0 && (long)m->next_hw == SC[m->s].shapefail) {
+        ev("{\"e\":\"CamFail\",\"s\":%d,\"hw\":%ld,\"call\":\"get_shape\"}", m->s, (long)m->next_hw);
+        vs_yield("cam_shape");
+        return Device_Err;
+    }
     vs_yield("cam_shape"); // (the source's loop asks for the shape every round: a loop that gets no queue space must stay preemptible)
     return Device_Ok;
 }
@@ -776,7 +783,7 @@ main(int argc, char** argv)
     cfg.budget = 60000;
     cfg.fair_budget = 60000;
     for (int s = 0; s < MAXS; s++)
-        SC[s] = (struct scfg){ .frames = 5, .w = 5, .h = 3, .type = SampleType_u8, .avg = 1, .camfail = -1, .stofail = -1, .zero_at = -1 };
+        SC[s] = (struct scfg){ .frames = 5, .w = 5, .h = 3, .type = SampleType_u8, .avg = 1, .camfail = -1, .stofail = -1, .shapefail = -1, .zero_at = -1 };
     static char line[1 << 18];
     while (fgets(line, sizeof line, f)) {
         char* tok = strtok(line, " \t\n");
@@ -822,6 +829,7 @@ main(int argc, char** argv)
                 else if (!strcmp(k, "delay_ms")) SC[s].delay_ms = (float)atof(v);
                 else if (!strcmp(k, "trigger")) SC[s].trigger = atoi(v);
                 else if (!strcmp(k, "camfail")) SC[s].camfail = atol(v);
+                else if (!strcmp(k, "shapefail")) SC[s].shapefail = atol(v);
                 else if (!strcmp(k, "stofail")) SC[s].stofail = atol(v);
                 else if (!strcmp(k, "slow")) SC[s].slow = atoi(v);
                 else if (!strcmp(k, "pace")) SC[s].pace = atoi(v);
@@ -853,8 +861,8 @@ main(int argc, char** argv)
 
     ev("{\"e\":\"Reset\",\"hdr\":%d,\"cap\":%ld,\"ns\":%d,\"streams\":[{\"n\":%ld,\"avg\":%d,\"bpp\":%d,\"trig\":%d,\"fault\":%s},{\"n\":%ld,\"avg\":%d,\"bpp\":%d,\"trig\":%d,\"fault\":%s}]}",
        (int)sizeof(struct VideoFrame), (long)ring_cap, nstreams, SC[0].frames, SC[0].avg, (int)bytes_of_type(SC[0].type), SC[0].trigger,
-       (SC[0].camfail >= 0 || SC[0].stofail >= 0) ? "true" : "false", SC[1].frames, SC[1].avg, (int)bytes_of_type(SC[1].type), SC[1].trigger,
-       (SC[1].camfail >= 0 || SC[1].stofail >= 0) ? "true" : "false");
+       (SC[0].camfail >= 0 || SC[0].stofail >= 0 || SC[0].shapefail >= 0) ? "true" : "false", SC[1].frames, SC[1].avg, (int)bytes_of_type(SC[1].type), SC[1].trigger,
+       (SC[1].camfail >= 0 || SC[1].stofail >= 0 || SC[1].shapefail >= 0) ? "true" : "false");
 
     rt = acquire_init(reporter);
     if (!rt)
